@@ -435,3 +435,34 @@ def _comparable(interp, args, kwargs, node):
         kb = type(b.content.elem_kind).__name__ if isinstance(b, VList) and isinstance(b.content, SymSeq) else None
         return VBool(ka == kb)
     return VBool(True)
+
+
+def _series_getitem(interp, base, idx, node):
+    """pandas: Series.__getitem__(int) is LABEL based for an integer index (pandas >= 2: no positional fallback)"""
+    if not (isinstance(base, VList) and base.kind == "Series" and isinstance(idx, (VInt,)) and isinstance(base.content, SymSeq)):
+        return None
+    lab = getattr(base, "labels", None)
+    ctx = interp.ctx
+    n = base.content.length
+    i = idx.term
+    ctx.assumed.add("extern:pandas.Series.__getitem__(int) looks the integer up among the index LABELS (KeyError if absent)")
+    if lab is None:
+        if interp.spec_mode:
+            return base.content.at(i)
+        if not ctx.decide(z3.And(i >= 0, i < n), getattr(node, "lineno", "")):
+            raise_py(interp, "KeyError", "label", node)
+        return base.content.at(i)
+    if interp.spec_mode:
+        # contracts speak about positions: seqs[i] in a clause means the element at POSITION i
+        return base.content.at(i)
+    p = ctx.fresh("labelpos", z3.IntSort())
+    q = z3.Int("q!lp")
+    found = z3.And(p >= 0, p < n, lab(p) == i)
+    absent = z3.ForAll([q], z3.Implies(z3.And(q >= 0, q < n), lab(q) != i))
+    c = ctx.choose([found, absent], getattr(node, "lineno", ""))
+    if c == 1:
+        raise_py(interp, "KeyError", "label", node)
+    return base.content.at(p)
+
+
+E.HOOKS["index"].insert(0, _series_getitem)
